@@ -510,24 +510,41 @@ func (r *Run) applyContract(st *State, fr *Frame, fn *ssa.Function, blk *Block, 
 	vars := e.contractVars(fn, args)
 	// a closure with its own contract: its captured variables are visible to the contract by name
 	var written []*Cell
+	writtenName := map[*Cell]string{}
 	for i, fv := range fn.FreeVars {
 		if i < len(binds) {
 			if a, ok := binds[i].(*Addr); ok && a.Kind == ACell {
 				vars[fv.Name()] = SV{V: st.Cells[a.Cell], T: a.Cell.Typ}
-				if closureWrites(fn, i) {
+				if closureWrites(fn, i) || e.guardLocal(fn, fv.Name()) != "" {
 					written = append(written, a.Cell)
+					writtenName[a.Cell] = fv.Name()
 				}
 			} else if t, ok := binds[i].(T); ok {
 				vars[fv.Name()] = SV{V: t, T: fv.Type()}
 			}
 		}
 	}
-	defer func() {
-		// the call may have assigned the captured variables it writes
-		for _, c := range written {
-			st.Cells[c] = e.freshVal(st, c.Typ, "cw_"+c.Name)
+	postDone := false
+	oldVars := map[string]SV{}
+	// the call may have assigned the captured variables it writes (or, for guard-local variables, another
+	// thread may have): postconditions speak about the new values, old() about the previous ones — for
+	// guard-local variables about the unknown values the callee found when it took the lock
+	havocWritten := func() {
+		if postDone {
+			return
 		}
-	}()
+		postDone = true
+		for _, c := range written {
+			pre := st.Cells[c]
+			if e.guardLocal(fn, writtenName[c]) != "" {
+				pre = e.freshVal(st, c.Typ, "acq_"+c.Name)
+			}
+			oldVars[writtenName[c]] = SV{V: pre, T: c.Typ}
+			st.Cells[c] = e.freshVal(st, c.Typ, "cw_"+c.Name)
+			vars[writtenName[c]] = SV{V: st.Cells[c], T: c.Typ}
+		}
+	}
+	defer havocWritten()
 	ord := e.callOrdinal(fr.Fn, in, callee)
 	mkCtx := func(s *State, old map[string]string) *SpecCtx {
 		c := e.specCtx(s, nil)
@@ -537,6 +554,7 @@ func (r *Run) applyContract(st *State, fr *Frame, fn *ssa.Function, blk *Block, 
 			c.vars[k] = v
 		}
 		c.old = old
+		c.oldVars = oldVars
 		return c
 	}
 	calleeBV := e.bvFiles[shortFile(e.prog.Fset.Position(fn.Pos()).Filename)]
@@ -608,22 +626,7 @@ func (r *Run) applyContract(st *State, fr *Frame, fn *ssa.Function, blk *Block, 
 		panicConds = append(panicConds, mkCtx(st, nil).boolTerm(x))
 	}
 	mayPanic := blk.First("maypanic") != nil
-	if len(panicConds) > 0 || (mayPanic && r.panicMatters(st)) {
-		p := st.clone()
-		if len(panicConds) > 0 && !mayPanic {
-			p.assume(Or(panicConds...))
-		}
-		p.Panicking = true
-		p.PanicVal = e.freshConst("panic_"+callee, SAny)
-		p.Facts["panic.site"] = callee + " at " + e.posOf(in)
-		pf := p.top()
-		pf.InDefers = true
-		pf.AfterDef = 1
-		forks = append(forks, p)
-		for _, pc := range panicConds {
-			st.assume(Not(pc))
-		}
-	}
+	wantPanicFork := len(panicConds) > 0 || (mayPanic && r.panicMatters(st))
 	// effects
 	var recv T
 	if fn.Signature.Recv() != nil && len(args) > 0 {
@@ -645,6 +648,38 @@ func (r *Run) applyContract(st *State, fr *Frame, fn *ssa.Function, blk *Block, 
 	e.bindResults(fn, vars, res)
 	for i, v := range res {
 		st.Ghost[fmt.Sprintf("ires:%s:%d", callee, i)] = v
+	}
+	havocWritten()
+	if wantPanicFork {
+		// the panicking outcome: the callee's effects may have happened before the panic (the state is havoced as
+		// for a normal return); its ensures-panic clauses describe what is known then
+		p := st.clone()
+		if len(panicConds) > 0 && !mayPanic {
+			p.assume(Or(panicConds...))
+		}
+		for _, cl := range blk.All("ensures-panic") {
+			x, err := parseSpec(cl.Expr)
+			if err != nil || usesPathGhosts(cl.Expr) {
+				continue
+			}
+			nerr := len(e.errors)
+			t := mkCtx(p, old).boolTerm(x)
+			if len(e.errors) > nerr {
+				e.errors = e.errors[:nerr]
+				continue
+			}
+			p.assume(t)
+		}
+		p.Panicking = true
+		p.PanicVal = e.freshConst("panic_"+callee, SAny)
+		p.Facts["panic.site"] = callee + " at " + e.posOf(in)
+		pf := p.top()
+		pf.InDefers = true
+		pf.AfterDef = 1
+		forks = append(forks, p)
+		for _, pc := range panicConds {
+			st.assume(Not(pc))
+		}
 	}
 	for _, cl := range blk.All("ensures") {
 		x, err := parseSpec(cl.Expr)
